@@ -37,10 +37,10 @@ Theorem cnn_change_kernel_smaller_valid st c a ks hl r1 r2 :
    let r := match hl with Some _ => r1 | None => r2 end in
    let k' := match ks with Some k => k | None => pick 1 (znth (max_kernels (cs_h st) (cs_w st) (kernels a) (strides a)) i + 1) r end in
    1 <= k' <= nth (Z.to_nat i) (kernels a) 0) ->
-  cnn_ok st (arch_of (cnn_step st c a (CChangeKernel ks hl) r1 r2)).
+  cnn_ok st (arch_of (cnn_step_prefix st c a (CChangeKernel ks hl) r1 r2)).
 Proof.
   intros Hok Hlen Hk. apply cnn_ok_parts in Hok. destruct Hok as (Hne & Hwf & Hpos & Hfm).
-  cbn [cnn_step]. unfold cnn_change_kernel. destruct (Z.ltb_spec 1 (zlen (channels a))); [|lia].
+  cbn [cnn_step_prefix]. unfold cnn_change_kernel_prefix. destruct (Z.ltb_spec 1 (zlen (channels a))); [|lia].
   destruct hl as [l|]; cbv zeta beta iota in Hk; unfold arch_of; cbn [fst]; apply cnn_ok_parts; unfold cnn_wf;
     cbn [channels kernels strides]; (split; [auto|]); (split; [rewrite zlen_updz; exact Hwf|]); (split; [auto|]);
     unfold updz; apply fm_valid_upd_smaller; auto; lia.
@@ -59,42 +59,12 @@ Theorem cnn_unbuildable_reachable :
   let a0 := {| channels := [32]; kernels := [5]; strides := [1] |} in
   cnn_ok st a0 /\ cnn_in_bounds c 9 1 a0 /\
   Forall (fun o : cnn_op => cnn_meth_ok (fst (fst o))) unbuildable_chain /\
-  cnn_ok st (cnn_run st c a0 (removelast unbuildable_chain)) /\
-  kernels (cnn_run st c a0 unbuildable_chain) = [5; 7; 7; 7; 7; 5] /\
-  cnn_valid st (cnn_run st c a0 unbuildable_chain) = false.
+  cnn_ok st (cnn_run_prefix st c a0 (removelast unbuildable_chain)) /\
+  kernels (cnn_run_prefix st c a0 unbuildable_chain) = [5; 7; 7; 7; 7; 5] /\
+  cnn_valid st (cnn_run_prefix st c a0 unbuildable_chain) = false.
 Proof.
   cbv zeta. split; [reflexivity|]. split.
   - unfold cnn_in_bounds, cnn_wf. cbn. repeat split; try lia; try discriminate; repeat constructor; unfold between; lia.
   - split; [repeat constructor|]. split; [vm_compute; reflexivity|]. split; vm_compute; reflexivity.
 Qed.
 
-(* ---- the candidate repair fixes/C03-cnn-change-kernel-fit.patch: change_kernel keeps the old kernel when the new
-   one would leave a later layer with an input smaller than its kernel.  (Not the current tree: not tied by K.) *)
-Definition cnn_change_kernel_fixed (st : cnn_static) (c : cnn_cfg) (a : cnn_arch) (ks hl : option Z) (r1 r2 : Z) : step_out cnn_arch :=
-  if 1 <? zlen (channels a) then
-    let '(a', nm, rt) := cnn_change_kernel st c a ks hl r1 r2 in
-    if fm_valid (cs_h st) (cs_w st) (kernels a') (strides a') then (a', nm, rt)
-    else (a, nm, [nth 0 rt 0; znth (kernels a) (nth 0 rt 0)])
-  else cnn_change_kernel st c a ks hl r1 r2.
-Definition cnn_step_fixed st c a (m : cnn_meth) r1 r2 : step_out cnn_arch :=
-  match m with CChangeKernel ks hl => cnn_change_kernel_fixed st c a ks hl r1 r2 | _ => cnn_step st c a m r1 r2 end.
-
-Theorem cnn_valid_inv_fixed st c a m r1 r2 :
-  1 <= c_min_layers c -> 1 <= c_min_ch c -> cnn_meth_ok m ->
-  cnn_ok st a -> cnn_ok st (arch_of (cnn_step_fixed st c a m r1 r2)).
-Proof.
-  intros Hl Hc Hm Hok. destruct m as [| |ks hl|hl nn|hl nn];
-    try (apply (cnn_valid_inv_partial st c a _ r1 r2 Hl Hc Hm I Hok)).
-  cbn [cnn_step_fixed]. unfold cnn_change_kernel_fixed.
-  destruct (Z.ltb_spec 1 (zlen (channels a))).
-  - pose proof (cnn_wf_inv st c a (CChangeKernel ks hl) r1 r2) as Hwf. cbn [cnn_step] in Hwf.
-    assert (Hch : channels (arch_of (cnn_change_kernel st c a ks hl r1 r2)) = channels a).
-    { unfold cnn_change_kernel. destruct (Z.ltb_spec 1 (zlen (channels a))); [|lia]. destruct hl; reflexivity. }
-    unfold arch_of in *. destruct (cnn_change_kernel st c a ks hl r1 r2) as [[a' nm] rt]. cbn [fst] in *.
-    destruct (fm_valid (cs_h st) (cs_w st) (kernels a') (strides a')) eqn:E; cbn [fst]; [|exact Hok].
-    apply cnn_ok_parts in Hok. destruct Hok as (Hne & Hw & Hpos & _).
-    apply cnn_ok_parts. rewrite Hch. repeat split; auto; apply Hwf; exact Hw.
-  - (* one layer: change_kernel falls back on add_layer (-> add_channel) *)
-    unfold cnn_change_kernel. destruct (Z.ltb_spec 1 (zlen (channels a))); [lia|].
-    apply (cnn_valid_inv_partial st c a CAddLayer r1 r2 Hl Hc I I Hok).
-Qed.
